@@ -17,7 +17,8 @@ RULE = ('Hypothesis-generated histories over populations of 2-6 recorder handler
         '(harness holds the only strong references and drops them at generated points) and on a World '
         '(components whose only strong reference is the world): add / remove / forget+gc.collect / dispatch / '
         'arm a one-shot "killer" callback that makes another handler disappear in the middle of a dispatch '
-        '(drops its last reference, removes its component or deletes its entity immediately); dispatches are '
+        '(drops its last reference, removes its component or deletes its entity immediately, or calls clear() on '
+        'the dispatcher / world from inside the callback and drops every other handler); dispatches are '
         'direct or postponed (disable; dispatch; enable - the release delivers it). The listener '
         'iteration order of every dispatch is part of the case: a generated permutation (half of the '
         'dispatches) or slot order, injected through an ordered set in desper.events. Oracle: every '
